@@ -195,6 +195,8 @@ def tag_keys(tag):
 
 
 def replay(case):
+    if 'sweep' in case:
+        return w_sweep(tuple(case['sweep'])).failures
     if 'tamper' in case:
         t = case['tamper']
         crypto, il = tag_keys(t['tag'])
@@ -297,6 +299,23 @@ def w_sweep(task):
         fails.append(Failure('reference-message-rejected', f'reference-protected {name} does not parse under its keys'))
     fails += check_tamper(data, crypto, il, [(p, b) for p in range(len(data)) for b in range(8)], st_, tag)
     fails += check_trunc_ext(data, crypto, st_, tag)
+    for extra in (1, 2, 7, 15):
+        padded = K.protect(h, first, chain, sk_e, sk_a, integ, hashlib.md5(name.encode()).digest(), pad_extra_blocks=extra,
+                           padbytes=bytes((i * 7 + extra) & 0xFF for i in range(16 * extra + 16)))
+        try:
+            m1 = A.Message.parse(data, crypto=crypto)
+            m2 = A.Message.parse(padded, crypto=crypto)
+            same = [type(x).__name__ for x in m1.encrypted_payloads] == [type(x).__name__ for x in m2.encrypted_payloads] and \
+                [bytes(x.to_bytes()) for x in m1.encrypted_payloads] == [bytes(x.to_bytes()) for x in m2.encrypted_payloads]
+            if not same:
+                fails.append(Failure('extra-padding-changes-payloads', f'{name} protected with {extra} extra block(s) of padding parses '
+                                                                       f'to different payloads'))
+        except A.IkeSaError as ex:
+            fails.append(Failure('extra-padding-rejected', f'{name} protected by a sender that pads with {extra} extra block(s) (Pad '
+                                                           f'Length {len(padded) - len(data) + (len(data) - 28 - 4 - 16 - il - len(chain) - 1)}) is '
+                                                           f'rejected: {ex}'))
+        st_.evals += 1
+        st_.classes['padding:extra-blocks'] += 1
     for v in range(256):
         if v == data[16]:
             continue
@@ -316,6 +335,8 @@ def w_sweep(task):
     if len(st_.samples) < 2:
         st_.samples.append({'sweep': name, 'octets': len(data), 'keyset': [bits, integ], 'flips': len(data) * 8})
     for f in fails:
+        if f.case is None:
+            f.case = {'sweep': [idx, ks]}
         if common.KNOWN.is_open('C07', f.sig):
             st_.excluded[f.sig] += 1
         else:
